@@ -182,6 +182,39 @@ mutual
       (path, i) :: ((if descends mode rerr then cellsC nn c (path ++ [.key key]) else []) ++ cellsF rest path (i + 1))
 end
 
+/-- The errors one field invocation at response path `p` can raise: none for `__typename`, the
+    resolver's error, or (`inner`) those of completing its value. -/
+def headErrs (mode : Mode) (rerr : Option String) (p : Path) (inner : List Err) : List Err :=
+  match mode with
+  | .tname => []
+  | _ =>
+    match rerr with
+    | some msg => [⟨p, msg⟩]
+    | none => inner
+
+mutual
+  /-- Every field error the request can raise according to the GraphQL rules, read off the plan:
+      resolver errors, completion errors, a null resolved for a non-null position. Which of them
+      a run reports depends on propagation (and, when several fail beneath one non-null position,
+      on execution order); no run may report anything else, nor any of them twice. -/
+  def errsC (nn : Bool) (c : Comp) (path : Path) : List Err :=
+    match c with
+    | .null => if nn then [⟨path, nonNullMsg⟩] else []
+    | .scalar _ => []
+    | .bad msg => [⟨path, msg⟩]
+    | .list inn cs => errsL inn cs path 0
+    | .object fs => errsF fs path
+  def errsL (inn : Bool) (cs : List Comp) (path : Path) (i : Nat) : List Err :=
+    match cs with
+    | [] => []
+    | c :: rest => errsC inn c (path ++ [.idx i]) ++ errsL inn rest path (i + 1)
+  def errsF (fs : List Field) (path : Path) : List Err :=
+    match fs with
+    | [] => []
+    | .mk key nn mode rerr c :: rest =>
+      headErrs mode rerr (path ++ [.key key]) (errsC nn c (path ++ [.key key])) ++ errsF rest path
+end
+
 /-- The data of a request: the root object's JSON, or null. -/
 def data (rq : Request) : String :=
   if fieldsOk rq.fields [] then "{" ++ ",".intercalate (jsonF rq.fields []) ++ "}" else "null"
